@@ -12,6 +12,7 @@ import FalconProofs.C06.AsmEntry
 import FalconProofs.C06.AsmNoPanic
 import FalconProofs.C06.Refines
 import FalconProofs.C06.GuardOr
+import FalconProofs.C06.Merged
 
 namespace Falcon.C06Asm
 open Falcon Falcon.CfgEdit Falcon.Assemble Falcon.C15
@@ -224,6 +225,52 @@ theorem merged_guard_enabled {σ : State} {c₁ c₂ : Expr} (h : OrEvaluable σ
     guardHolds σ (some (.bin .or c₁ c₂)) ↔ guardHolds σ (some c₁) ∨ guardHolds σ (some c₂) :=
   guardHolds_or_iff h
 
+/-- **asm_refines_merged_partial** — `asm_refines` for tables in which two transfers between the same pair of
+    instructions carry DIFFERENT guards (clause `reqFun` of `Coherent` fails for `tb`; a conditional branch to its
+    own fall-through address: since falcon fed1e64 the edge carries `or c₁ c₂`).
+
+    Full statement aimed at (NOT proved): `asm_refines` with `reqFun` removed from `Coherent`, for the runs whose
+    states type the guards.
+
+    Proved: let `tb'` request the same transfers with such duplicates replaced by their disjunction (`MergedOf tb tb'
+    manual`, decidable: `mergedOfB_sound`; the driver takes `tb' = normalize tb`, which merges duplicate successor
+    targets exactly as the successor loop merges their edges, `graphAt_normalize`).  If `tb'` is coherent and
+    assembles to `f`, then for every reference configuration `x` of `tb` such that every state the reference reaches
+    from `x` types the guards of `tb` (`GuardsTyped`: each guard evaluates to a 0/1 constant of width one — what
+    C05's accepted guards give wherever their flags are defined), the runs of the reference of `tb` from `x` and the
+    runs of `f` from Ψ x are the same, exactly as in `asm_refines`.
+
+    What is partial: that the function assembled from `tb` IS the one assembled from `tb'`
+    (`assemble tb manual fnAddr = assemble tb' manual fnAddr`) is not proved for all tables — it is a decidable
+    equation that the driver evaluates on every generated case with a merged guard (detail `merged-guards:covered`),
+    a translation-validation step; and only ONE level of disjunction is covered by `MergedOf` (two distinct guards per
+    pair).  The typing hypothesis is necessary: `merged_guard_enabled` fails without it in both directions. -/
+theorem asm_refines_merged_partial {tb tb' : List (Nat × BTR)} {manual : List ManualEdge} {fnAddr : Nat} {f : Function}
+    (hc : Coherent tb' manual) (hg : GraphsWF tb') (h' : assemble tb' manual fnAddr = .ok f)
+    (hG : ∀ a, graphAt tb' a = graphAt tb a) (hM : MergedOf tb tb' manual) :
+    ∃ Ψ : RConfig → Config,
+      (∀ x, (Ψ x).state = x.state) ∧
+      (∀ g en σ, graphAt tb fnAddr = some g → g.entry = some en →
+        ∃ fe, f.cfg.entry = some fe ∧ Ψ ⟨fnAddr, en, 0, σ⟩ = ⟨fe, 0, σ⟩) ∧
+      (∀ x y, RValid tb x → (∀ y', RRun tb manual x y' → GuardsTyped tb manual y'.state) →
+        RRun tb manual x y → FRun f (Ψ x) (Ψ y)) ∧
+      (∀ x z, RValid tb x → (∀ y', RRun tb manual x y' → GuardsTyped tb manual y'.state) →
+        FRun f (Ψ x) z → ∃ y, RRun tb manual x y ∧ Ψ y = z) :=
+  assemble_refines_merged hc hg h' hG hM
+
+/-- the instance the driver checks: `tb' = normalize tb` -/
+theorem asm_refines_normalized {tb : List (Nat × BTR)} {manual : List ManualEdge} {fnAddr : Nat} {f : Function}
+    (hc : Coherent (normalize tb) manual) (hg : GraphsWF (normalize tb))
+    (h' : assemble (normalize tb) manual fnAddr = .ok f) (hM : mergedOfB tb (normalize tb) manual = true) :
+    ∃ Ψ : RConfig → Config,
+      (∀ x, (Ψ x).state = x.state) ∧
+      (∀ x y, RValid tb x → (∀ y', RRun tb manual x y' → GuardsTyped tb manual y'.state) →
+        RRun tb manual x y → FRun f (Ψ x) (Ψ y)) ∧
+      (∀ x z, RValid tb x → (∀ y', RRun tb manual x y' → GuardsTyped tb manual y'.state) →
+        FRun f (Ψ x) z → ∃ y, RRun tb manual x y ∧ Ψ y = z) := by
+  obtain ⟨Ψ, h1, _, h3, h4⟩ := assemble_refines_merged hc hg h' (graphAt_normalize tb) (mergedOfB_sound hM)
+  exact ⟨Ψ, h1, h3, h4⟩
+
 /-- **translate_function_refines** — the same for the whole of `translate_function_extended` (work list +
     assembly): the table is the one the work list built; `Coherent.keys` comes for free. -/
 theorem translate_function_refines {oracle : Nat → Option (Res BTR)} {manual : List ManualEdge} {fnAddr fuel : Nat}
@@ -273,5 +320,19 @@ example : GraphsWF exTb := by
   rcases hp with rfl | rfl <;> simp only [List.mem_cons, List.mem_nil_iff, or_false] at hg <;>
     (try rcases hg with rfl | rfl) <;> (try subst hg) <;>
     (constructor <;> simp [exNop, Cfg.hasBlock, BlockWF])
+
+/-- non-vacuity: a result whose two successors lead to the same address under complementary guards -/
+def exDup : List (Nat × BTR) :=
+  [(0x1000, { addr := 0x1000, length := 4, instrs := [exNop 0x1000],
+              succs := [(0x1004, some (.scalar ⟨"f", 1, none⟩)),
+                        (0x1004, some (.bin .cmpeq (.scalar ⟨"f", 1, none⟩) (.const ⟨1, 0⟩)))] }),
+   (0x1004, { addr := 0x1004, length := 4, instrs := [exNop 0x1004], succs := [] })]
+
+example : ¬ Coherent exDup [] := by decide
+example : Coherent (normalize exDup) [] := by decide
+example : mergedOfB exDup (normalize exDup) [] = true := by decide
+example : assemble (normalize exDup) [] 0x1000 = assemble exDup [] 0x1000 := by decide
+example : (assemble exDup [] 0x1000).map (fun f => f.cfg.edges.map (·.cond)) =
+    .ok [some (.bin .or (.scalar ⟨"f", 1, none⟩) (.bin .cmpeq (.scalar ⟨"f", 1, none⟩) (.const ⟨1, 0⟩)))] := by decide
 
 end Falcon.C06Asm
